@@ -17,6 +17,7 @@ import (
 	"github.com/smartcontractkit/chainlink-ccip/internal/plugincommon"
 	"github.com/smartcontractkit/chainlink-ccip/internal/reader"
 	readerpkg "github.com/smartcontractkit/chainlink-ccip/pkg/reader"
+	"github.com/smartcontractkit/chainlink-ccip/pkg/consts"
 	cciptypes "github.com/smartcontractkit/chainlink-ccip/pkg/types/ccipocr3"
 	"github.com/smartcontractkit/chainlink-ccip/pluginconfig"
 )
@@ -30,6 +31,8 @@ func vC16Digest(b byte) types.ConfigDigest {
 }
 
 // fresh plugin instance: fresh oracle map => fresh Go map iteration seed
+const vC16Don = 7
+
 func vC16Plugin(ids []commontypes.OracleID, writers map[commontypes.OracleID]bool, cfgErr bool,
 	my byte, cand byte, ocrErr bool, rd readerpkg.CCIPReader, rmnEnabled bool) *Plugin {
 	hc := vNewHomeChain()
@@ -49,11 +52,26 @@ func vC16Plugin(ids []commontypes.OracleID, writers map[commontypes.OracleID]boo
 		ActiveConfig:    reader.OCR3ConfigWithMeta{ConfigDigest: vC16Digest(200)},
 		CandidateConfig: reader.OCR3ConfigWithMeta{ConfigDigest: vC16Digest(cand)},
 	}
+	// the configs of every OTHER (DON, plugin type) say the opposite about this instance's digest, so that asking the
+	// home chain for the wrong DON or the wrong plugin type flips the candidate verdict
+	hc.OCRFor = func(donID uint32, pluginType uint8) reader.ActiveAndCandidate {
+		d := hc.OCR
+		if donID == vC16Don && pluginType == consts.PluginTypeCommit {
+			return d
+		}
+		if d.CandidateConfig.ConfigDigest == vC16Digest(my) {
+			d.CandidateConfig.ConfigDigest = vC16Digest(201)
+		} else {
+			d.CandidateConfig.ConfigDigest = vC16Digest(my)
+		}
+		return d
+	}
 	var me commontypes.OracleID
 	if len(ids) > 0 {
 		me = ids[0]
 	}
 	return &Plugin{
+		donID:           vC16Don,
 		oracleID:        me,
 		oracleIDToP2PID: m,
 		offchainCfg:     pluginconfig.CommitOffchainConfig{RMNEnabled: rmnEnabled},
